@@ -163,7 +163,7 @@ def run_merge(cfg, tier, ob):
 
     for e, (kind, res) in ex.run_all(body):
         fs, pov = st["fs"], st["pov"]
-        why, bad = [], []
+        why, bad, bad_div, bad_mul = [], [], [], []
         if kind == "exc":
             why.append(f"raised {type(res).__name__}: {res}")
         else:
@@ -172,10 +172,16 @@ def run_merge(cfg, tier, ob):
             if np.shape(Sy) != (ntot, nref, nf):
                 why.append(f"shape {np.shape(Sy)} != ({ntot},{nref},{nf})")
             else:
+              # the mean over S setups: exact division by S, or multiplication by the double 1/S (what `1 / n_setup * sum` computes;
+              # the two differ by one rounding when S is not a power of two) - either is accepted
+              for variant, bad in (("div", bad_div), ("mul", bad_mul)):
                 for f in range(nf):
                     R = [[[model.S((s, "ref", a), (s, "ref", b), f) for b in range(nref)] for a in range(nref)] for s in range(S)]
                     A = [[[model.S((s, "mov", a), (s, "ref", b), f) for b in range(nref)] for a in range(nmov[s])] for s in range(S)]
-                    M = [[sum((R[s][a][b] for s in range(S)), toc(0)) / S for b in range(nref)] for a in range(nref)]
+                    if variant == "div":
+                        M = [[sum((R[s][a][b] for s in range(S)), toc(0)) / S for b in range(nref)] for a in range(nref)]
+                    else:
+                        M = [[sum((R[s][a][b] for s in range(S)), toc(0)) * lift(1 / S) for b in range(nref)] for a in range(nref)]
                     # O2 reference block = mean
                     for a in range(nref):
                         for b in range(nref):
@@ -190,15 +196,19 @@ def run_merge(cfg, tier, ob):
                         row += nmov[s]
                     # O3 simultaneous recording: equals the single-setup matrix of all sensors against the references
                     if cfg.get("shared"):
+                        # with the mean taken as (double 1/S) * sum, S identical blocks average to kappa = S * double(1/S) times the
+                        # block (kappa = 1 up to one rounding; exactly 1 for S a power of two)
+                        kappa = lift(1) if variant == "div" else lift(1 / S) * S
                         for a in range(nref):
                             for b in range(nref):
-                                bad.append(differs(Sy[a, b, f], model.S((0, "ref", a), (0, "ref", b), f)))
+                                bad.append(differs(Sy[a, b, f], model.S((0, "ref", a), (0, "ref", b), f) * kappa))
                         row = nref
                         for s in range(S):
                             for a in range(nmov[s]):
                                 for b in range(nref):
-                                    bad.append(differs(Sy[row + a, b, f], model.S((s, "mov", a), (0, "ref", b), f)))
+                                    bad.append(differs(Sy[row + a, b, f], model.S((s, "mov", a), (0, "ref", b), f) * kappa))
                             row += nmov[s]
+            bad = []      # obligations that do not depend on the mean convention
             # O5 parameter pass-through
             if not model.calls:
                 why.append("SD_est never called")
@@ -208,7 +218,7 @@ def run_merge(cfg, tier, ob):
                     why.append(f"an SD_est call received nxseg={c['nxseg']}, method={c['method']}, pov={c['pov']} instead of the caller's (16, {cfg['method']}, pov)")
                     break
                 bad.append(differs(c["dt"], lift(1) / fs))
-        neg = z3.BoolVal(True) if why else z3.Or(*bad)
+        neg = z3.BoolVal(True) if why else z3.Or(z3.And(z3.Or(*bad_div), z3.Or(*bad_mul)), *bad)
         # a structural finding does not depend on the values: no need to search a model of the non-linear divisor conditions
         tally.decide(e, neg, on_sat=lambda m, why=tuple(why): cex(cfg, why), with_side=not why,
                      label=f"S={S} nref={nref} nmov={nmov} shared={cfg.get('shared')} {cfg['method']}")
